@@ -131,8 +131,7 @@ pub struct GatewayBinder {
 
 impl GatewayBinder {
     pub fn new(inst: &J, init: &J) -> GatewayBinder {
-        let mut cx = Ctx::new();
-        cx.ledger_step = 5;
+        let mut cx = Ctx::new_aging(5);
         let scale = &inst["scale"];
         let mut b = GatewayBinder {
             cx,
@@ -424,7 +423,9 @@ impl GatewayBinder {
         for s in sets {
             v.push_back(self.signers(s));
         }
-        let min_delay: u64 = self.inst["MinDelay"].as_u64().unwrap() * self.qt;
+        // abstract delay 2^31-1 (resp. 2^31-2) stands for u64::MAX (resp. u64::MAX - 1): "never without bypass"
+        let d = self.inst["MinDelay"].as_u64().unwrap();
+        let min_delay: u64 = if d >= 2147483646 { u64::MAX - (2147483647 - d) } else { d * self.qt };
         // abstract retention 2^31-1 (resp. 2^31-2) stands for u64::MAX (resp. u64::MAX - 1): "keep old sets for ever"
         let r = self.inst["Retention"].as_u64().unwrap();
         let retention: u64 = if r >= 2147483646 { u64::MAX - (2147483647 - r) } else { r };
@@ -574,6 +575,7 @@ impl GatewayBinder {
     }
 
     pub fn exec(&mut self, act: &J) -> Obs {
+        self.cx.set_argdrop(act);
         let name = jstr(act, "name");
         self.cx.set_time(self.time());
         let env = self.cx.env.clone();
@@ -640,7 +642,13 @@ impl GatewayBinder {
                 let payload = self.cx.bytes(&self.payload_bytes(act["payload"].as_str().unwrap()));
                 let via = act["via"].as_str().unwrap_or("direct");
                 let gw = self.gw.clone().unwrap();
-                let r = if via == "self" || via == "other" {
+                let times = act.get("times").and_then(|x| x.as_u64()).unwrap_or(1) as u32;
+                let r = if via == "self" && times > 1 {
+                    // the calling contract makes the same call several times within one transaction
+                    let probe = self.probes.get(&caller_name).expect("probe").clone();
+                    let args: SVec<Val> = svec![&env, gw.into_val(&env), chain.into_val(&env), addr.into_val(&env), payload.into_val(&env), times.into_val(&env)];
+                    self.cx.call_auth(&[], &probe, "gw_call_n", args)
+                } else if via == "self" || via == "other" {
                     // a probe contract issues the call; via=self: for itself, via=other: for `caller`
                     let pname = if via == "self" { caller_name.clone() } else { jstr(act, "through") };
                     let probe = self.probes.get(&pname).expect("probe").clone();
@@ -669,6 +677,11 @@ impl GatewayBinder {
                 let args: SVec<Val> = svec![&env, chain.into_val(&env), id.into_val(&env), src.into_val(&env), payload.into_val(&env)];
                 let r = self.cx.call_auth(&[], &app, "execute", args);
                 self.finish(r, |_, _| unit())
+            }
+            "HookOpenWindow" => {
+                let gw = self.gw.clone().unwrap();
+                env.as_contract(&gw, || axelar_soroban_std::interfaces::verif_open_migration_window(&env));
+                return Obs { ok: true, ret: unit(), ev: vec![], err: String::new() };
             }
             "TransferOwnership" | "TransferOperatorship" => {
                 let new = self.cx.addr(act["new"].as_str().unwrap());
